@@ -46,7 +46,9 @@ host_s = sized(HOSTCH, proto.HOSTLEN, first=string.ascii_lowercase)
 real_s = sized(TEXT, proto.REALLEN)
 acct_s = sized(string.ascii_letters + string.digits + "-_", 20, first=string.ascii_letters)
 text_s = st.text(TEXT, min_size=0, max_size=60) | st.text(TEXT, min_size=200, max_size=380)
-MODES = ["+", "+x", "+!", "+x!", "+!x", "-!", "-x", "+x-x", "+!-!", "-!+!", "+x+!", "-x!", "+", "+!"]
+MODES = ["+", "+x", "+!", "+x!", "+!x", "-!", "-x", "+x-x", "+!-!", "-!+!", "+x+!", "-x!", "+", "+!",
+         # characters other than + - x ! are skipped by the documented mode syntax
+         "+xw!", "+a", "+ix", "-w+!", "+x!z", "+!", "+x!"]
 
 
 @st.composite
@@ -67,7 +69,9 @@ def password_s(draw, weights):
         m = draw(st.sampled_from(weights[2] if len(weights) > 2 else MODES))
         sp = draw(st.sampled_from([" ", " ", " ", "  "]))
         return "%s%s%s %s" % (m, sp, draw(acct_s), draw(st.text(TEXT.replace(":", ""), min_size=1, max_size=12)))
-    return draw(st.sampled_from(["plain", "+x onlyone", "x a b", " +x a b", "+x", "+!", "-", "secret word", "+xaccount pass"]))
+    return draw(st.sampled_from(["plain", "+x onlyone", "x a b", " +x a b", "+x", "+!", "-", "secret word", "+xaccount pass",
+                                 # a mode prefix asking for +! / -! but no '<account> <password>' pair: not a password at all
+                                 "+! onlyone", "+x! hunter2", "-! one", "+!   lonely", "+x!", "+!x "]))
 
 
 @st.composite
